@@ -44,10 +44,19 @@ def minimise(mod, case, res, budget_s):
         if time.time() - t0 > budget_s:
             return False
         tried += 1
+        import signal
+
+        def _alarm(signum, frame):
+            raise TimeoutError("candidate run too slow")
+        old = signal.signal(signal.SIGALRM, _alarm)
+        signal.alarm(int(min(60, max(5, budget_s))))
         try:
             r = mod.run(cand)
         except Exception:
             return False
+        finally:
+            signal.alarm(0)
+            signal.signal(signal.SIGALRM, old)
         uv = unknown_violations(r, prop)
         if uv and vkey(uv[0]) == target:
             best_case, best_res = cand, r
